@@ -442,6 +442,9 @@ Proof.
     split; [|apply Left_same; reflexivity].
     eapply WF_frame; [|exact H]. apply frame_op_update with (id := id) (o := o); [exact Ho|apply rel_with_flags].
   - cbn [fst]. split; [eapply WF_same; [| |exact H]; reflexivity|apply Left_same; reflexivity].
+  - destruct (get_op c id) as [o|] eqn:Ho; cbn [fst]; [|split; [exact H|apply Left_refl]].
+    split; [|apply Left_same; reflexivity].
+    eapply WF_frame; [|exact H]. apply frame_op_update with (id := id) (o := o); [exact Ho|apply rel_poke_op].
 Qed.
 
 Lemma WF_init maxw : WF (init maxw).
